@@ -14,6 +14,7 @@ EXPLANATION = (
     "on `not NotFound` (a blob whose latest record is already a marker must not be marked again). U5: the per-blob and cross-blob "
     "cut keeps the first marker: truncate(first_del + 1) with first_del from position(is_deleted). Decides this control structure, "
     "not rank order or counts as values.")
+EXPLANATION += (" " + 'U7 the timestamp of the Deleted answer of get_entry_with_meta has the list returned by get_all_with_deletion_marker as its only index-query origin (helpers and adaptors are looked through).')
 ASSUMPTIONS = []
 
 BLOB_WRITE = 'blob::core::Blob::<K>::write'
@@ -320,6 +321,63 @@ def u7(ctx, rid):
         raise core.AnchorLost('Deleted results in get_entry_with_meta: %d' % n)
 
 
+def u8(ctx, rid):
+    """`read_with(meta)` / duplicate detection: "metadata equals meta" is decided on the decoded maps (`Meta: PartialEq`), never on
+    serialized bytes - a Meta is a HashMap, two equal maps serialize in different orders"""
+    prog = ctx.prog
+    n = 0
+    for f in prog.fns.values():
+        if not f.id.endswith('Blob::<K>::filter_entries::{closure#0}'):
+            continue
+        # the switch that decides whether an entry is returned: the nearest non-await switch dominating an Ok(Some(entry)) return
+        rets = []
+        for i, b in enumerate(f.blocks):
+            if b['c'] or i not in f.reachable():
+                continue
+            for st in b['s']:
+                if st['k'] == 'a' and st['r']['k'] == 'agg' and st['r'].get('variant') == 'Some' and 'Entry' in (core.place_type_str(f, st['d']) or ''):
+                    rets.append(i)
+        for rb in rets:
+            can = set(i for i in f.reachable() if rb in f.reach_from([i]))
+            deciding = []
+            for i in sorted(can):
+                t = f.blocks[i]['t']
+                if t['k'] != 'switch' or any(a.switch_bb == i for a in f.awaits()):
+                    continue
+                outs = [tg for _, tg in t['vals']] + [t['otherwise']]
+                outs = [x for x in outs if x is not None and f.blocks[x]['t']['k'] != 'unreachable']
+                rr = [rb in f.reach_from([x], avoid_enter=[i]) for x in outs]
+                if any(rr) and not all(rr):
+                    sites = []
+                    core.scalar_leaves(prog, f, t['o'], sites=sites)
+                    eqs = [(nm, fid, bb) for (nm, fid, bb) in sites if nm in ('eq', 'ne')]
+                    if eqs:
+                        deciding.append((i, eqs))
+            for (i, eqs) in deciding:
+                n += 1
+                key = 'meta-compared-decoded|%s' % prog.fns[f.id].root
+                bad = []
+                good = []
+                for (nm, fid, bb) in eqs:
+                    c = prog.fns[fid].call_at(bb)
+                    st = (c.self_ty or {}).get('s', '')
+                    if 'Meta' in st or 'HashMap' in st:
+                        good.append(c)
+                    elif st.replace('&', '').replace('mut ', '').strip() in ('[u8]', 'std::vec::Vec<u8>', 'bytes::BytesMut', 'bytes::Bytes'):
+                        bad.append(c)
+                if not good and not bad:
+                    continue
+                if not good and bad == []:
+                    continue
+                if bad or not good:
+                    bad = bad or [prog.fns[eqs[0][1]].call_at(eqs[0][2])]
+                    ctx.bad(rid, key, bad[0].where(), 'whether a record matches the requested metadata is decided by `%s` on %s, not by Meta equality: two equal maps serialize in different orders, so read_with misses matching records and a duplicate write is stored again' % (bad[0].name, (bad[0].self_ty or {}).get('s', 'bytes')))
+                else:
+                    ctx.ok(rid, key, f.where(i), 'decided by PartialEq on Meta')
+    if n < 1:
+        raise core.AnchorLost('metadata match decision in filter_entries: %d' % n)
+
+
 RULES = [
     Rule('C02.U1', 'the append in the write path is dominated by the duplicate policy branch; a found duplicate is acknowledged without storing', u1, 1),
     Rule('C02.U2', 'closed blobs are only ever marked with only_if_presented = true', u2, 2),
@@ -327,5 +385,6 @@ RULES = [
     Rule('C02.U4', 'a deletion marker is appended only unconditionally or when the blob\'s latest record is live', u4, 1),
     Rule('C02.U5', 'version lists are cut immediately after the first deletion marker (per blob and across blobs)', u5, 2),
     Rule('C02.U7', 'the Deleted answer of the per-blob meta lookup is taken from the marker-terminated version list', u7, 1),
+    Rule('C02.U8', 'metadata equality in the meta lookup is decided on decoded maps, never on serialized bytes', u8, 1),
     Rule('C02.U6', 'the point lookup consults every candidate closed blob before it returns Ok', u6, 1),
 ]
